@@ -4,7 +4,7 @@
    cmd/root.go; pick = the selection loop of PluginManager.Install over GetManifest's sorted versions;
    vcompare / check = Masterminds semver v1.5.0 Compare / Constraints.Check).
    canonv v: every prerelease identifier of v is non-empty and, when numeric, written without leading zeros. *)
-From Octo Require Import Plugins PluginsProofs.
+From Octo Require Import Plugins PluginsProofs PluginsRoundtrip.
 From Coq Require Import Permutation Sorted.
 
 (* version_le (Compare <= 0) is reflexive, total and transitive; GreaterThan — the comparator handed to
@@ -63,6 +63,19 @@ Theorem C28_hyphen_range : forall lo hi v,
   check1 v (parse_constraint (mkCS OpLe (vs_maj hi) (vs_rest hi) (vs_pre hi))).
 Proof. intros lo hi v. unfold check, desugar. simpl. rewrite andb_true_r, orb_false_r. reflexivity. Qed.
 Print Assumptions C28_hyphen_range.
+
+(* String() and NewVersion are inverse on well-formed versions (segments within int64, prerelease identifiers
+   non-empty over [0-9A-Za-z-], metadata empty or dotted identifiers): the version directory Install creates,
+   version.Number.String(), parses back to the same version, so installed versions are listed as themselves.
+   (This is the hypothesis u_parse / f_parse of the C27 theorems.) *)
+Theorem C28_version_roundtrip : forall v, wf_version v -> parse_version (print_version v) = Some v.
+Proof. exact parse_print. Qed.
+Print Assumptions C28_version_roundtrip.
+
+Theorem C28_installed_versions_listed : forall vs, Forall wf_version vs ->
+  parse_versions (map print_version vs) = Ok vs.
+Proof. exact parse_versions_print. Qed.
+Print Assumptions C28_installed_versions_listed.
 
 (* The pinned code keeps the text after the LAST dash: core/octosql-plugin-my-plugin is listed as "plugin". *)
 Theorem C28_discover_refuted : exists it,
